@@ -104,14 +104,18 @@ theorem export_name_inference {lib : Lib} {ms : State} {ss : Spec.St} (hs : Sim 
   inferExport_eq hs item hi
 
 /-- Spread export: the loop exports, in order, exactly the instance exports whose names are not
-    exported yet (`Spec.spreadExports`), and reports whether it exported anything. -/
+    exported yet (`Spec.spreadExports`), reports whether it exported anything, and fails with
+    `ExportConflict` exactly when the reference does (a name that denotes a declaration). -/
 theorem spread_export_semantics {lib : Lib} {ms : State} {ss : Spec.St} (hs : Sim lib ms ss) (item : Nat)
     (hi : item < ms.graph.nodes.length) (es : Exports) (hes : (ms.graph.kindOf item).instExports = some es) :
-    ∃ ms', spreadExportLoop item ms false es.names =
-        .ok (ms', (Spec.spreadExports (valOf ms.graph item) es.toList ss.exports).2) ∧
-      Sim lib ms' { ss with exports := (Spec.spreadExports (valOf ms.graph item) es.toList ss.exports).1 } := by
-  obtain ⟨ms', h1, h2⟩ := spreadExportLoop_sim (lib := lib) item es es.toList [] ms ss false hs hi hes (by simp) (by simp)
-  exact ⟨ms', by simpa [Exports.names] using h1, h2⟩
+    (∀ d, Spec.spreadExports ss (valOf ms.graph item) es.toList ss.exports = .error d →
+      spreadExportLoop item ms false es.names = .error d) ∧
+    (∀ ex any, Spec.spreadExports ss (valOf ms.graph item) es.toList ss.exports = .ok (ex, any) →
+      ∃ ms', spreadExportLoop item ms false es.names = .ok (ms', any) ∧ Sim lib ms' { ss with exports := ex }) := by
+  obtain ⟨h1, h2⟩ := spreadExportLoop_sim (lib := lib) item es es.toList [] ms ss false hs hi hes (by simp) (by simp)
+  refine ⟨fun d h => h1 d h, fun ex any h => ?_⟩
+  obtain ⟨ms', e, s⟩ := h2 ex any h
+  exact ⟨ms', by simpa [Exports.names] using e, s⟩
 
 /-! ## the refinement and the diagnostics -/
 
@@ -158,8 +162,14 @@ theorem spread_no_match_iff (p : Program) (lib : Lib) (hlib : lib.wf = true) :
 theorem spread_export_no_effect_iff (p : Program) (lib : Lib) (hlib : lib.wf = true) :
     resolveModel p lib = .error .spreadExportNoEffect ↔ Spec.eval p lib = .error .spreadExportNoEffect :=
   diagnostic_iff p lib hlib _
-theorem export_conflict_iff (p : Program) (lib : Lib) (hlib : lib.wf = true) (n : Str) :
+theorem duplicate_export_iff (p : Program) (lib : Lib) (hlib : lib.wf = true) (n : Str) :
     resolveModel p lib = .error (.duplicateExport n) ↔ Spec.eval p lib = .error (.duplicateExport n) :=
+  diagnostic_iff p lib hlib _
+theorem export_conflict_iff (p : Program) (lib : Lib) (hlib : lib.wf = true) (n : Str) :
+    resolveModel p lib = .error (.exportConflict n) ↔ Spec.eval p lib = .error (.exportConflict n) :=
+  diagnostic_iff p lib hlib _
+theorem declaration_conflict_iff (p : Program) (lib : Lib) (hlib : lib.wf = true) (n : Str) :
+    resolveModel p lib = .error (.declarationConflict n) ↔ Spec.eval p lib = .error (.declarationConflict n) :=
   diagnostic_iff p lib hlib _
 
 /-! ### non-vacuity: a library and programs on which both sides are evaluated by the kernel -/
@@ -193,7 +203,16 @@ def isErr (r : Except Diag Composition) (d : Diag) : Bool :=
   | .ok _ => false
   | .error e => decide (e = d)
 
+/-- `interface out { f: func(); } import x: out; export x as out;` — an export taking the name of a declaration -/
+def prog3 : Program :=
+  { self := "test:comp".toList,
+    stmts := [ .iface "out".toList [("f".toList, 0)],
+               .imp "x".toList none (.ident "out".toList),
+               .exp (.ident "x".toList) (.as "out".toList) ] }
+
 example : lib1.wf = true := by decide
+example : isErr (Spec.eval prog3 lib1) (.exportConflict "out".toList) = true := by decide
+example : isErr (resolveModel prog3 lib1) (.exportConflict "out".toList) = true := by decide
 /- two instantiations, `run` exported, `x` implicitly imported; the spread supplies `foo:bar/baz` -/
 example : okWith (Spec.eval prog1 lib1) 2 1 1 = true := by decide
 example : okWith (resolveModel prog1 lib1) 2 1 1 = true := by decide
